@@ -1072,6 +1072,16 @@ def rule_R8contains(text, applied, arg=None):
     return t
 
 
+def rule_R8rposition(text, applied):
+    """`E[..N].iter().rposition(Option::is_some)` -> `vrposition_some(&E, N)` (verified helper: the last index below N
+    holding a Some)."""
+    t, n = _sub_masked(text, r"((?:[\w\.]+)(?:\[[^\]]+\])*)\[\s*\.\.\s*([^\]]+)\]\s*\.\s*iter\(\)\s*\.\s*rposition\(\s*Option::is_some\s*\)",
+                       lambda m, s: f"vrposition_some(&{m.group(1)}, {m.group(2).strip()})")
+    if n:
+        applied.append(f"R8rpositionx{n}")
+    return t
+
+
 def rule_subst(text, applied, arg=None):
     """literal type substitution OLD=>NEW inside the item (e.g. `Box<dyn Any>` => an opaque type parameter)."""
     old, new = arg.replace("~", " ").split("=>")
@@ -1089,7 +1099,7 @@ def rule_const(text, applied):
 RULES = {
     "R1": rule_R1, "R2": rule_R2, "R2ref": rule_R2ref, "R3": rule_R3, "R4": rule_R4, "R5": rule_R5,
     "R8max": rule_R8max, "R8cmpmax": rule_R8cmpmax, "R8resize_none": rule_R8resize_none, "R9": rule_R9, "R8position": rule_R8position, "R8rotate": rule_R8rotate, "R12refcell": rule_R12refcell,
-    "R8slice": rule_R8slice, "R7iter": rule_R7iter, "R8bitget": rule_R8bitget, "R8contains": rule_R8contains, "R12cell": rule_R12cell, "R8resize_veccap": rule_R8resize_veccap, "R8collectid": rule_R8collectid, "R8index": rule_R8index, "subst": rule_subst,
+    "R8slice": rule_R8slice, "R7iter": rule_R7iter, "R8bitget": rule_R8bitget, "R8rposition": rule_R8rposition, "R8contains": rule_R8contains, "R12cell": rule_R12cell, "R8resize_veccap": rule_R8resize_veccap, "R8collectid": rule_R8collectid, "R8index": rule_R8index, "subst": rule_subst,
     "R7ref": rule_R7ref, "R16": rule_R16, "R14q": rule_R14q, "R7stack": rule_R7stack, "R18": rule_R18, "R8frozenindex": rule_R8frozenindex, "R7range": rule_R7range, "R14err": rule_R14err, "R7array": rule_R7array, "R17": rule_R17,
     "R13": rule_R13, "R14": rule_R14, "R2set": rule_R2set, "R8first": rule_R8first, "R7": rule_R7, "R10": rule_R10, "R11": rule_R11,
 }
@@ -1196,6 +1206,13 @@ def build_fn(src: Source, selector, opts, sections, emitter: Emitter, unit_rules
         if rname not in RULES:
             raise ExtractError(f"unknown rule {rn}")
         text = RULES[rname](text, applied, rarg) if rarg else RULES[rname](text, applied)
+    # safe desugarings applied to every extracted fn (so that ordinary idioms introduced by a later edit stay inside
+    # the subset): assert_eq!/assert_ne!, `|_|` closure parameters, Option combinators over closure literals
+    for dflt in (rule_R3, rule_R4, rule_R14):
+        try:
+            text = dflt(text, applied)
+        except ExtractError:
+            pass
     # R19 closure hoist + contract splice: `//@closure NAME` section = typed parameter list and contract that
     # replace the `|params|` of the (single) closure literal; the closure is bound to NAME just before the
     # statement that contains it and NAME is passed instead (argument evaluation order is unchanged: creating a
